@@ -1,5 +1,6 @@
 """Simulated synchronisation primitives, clock and thread start — all yield points of the kernel."""
 import queue as _realqueue
+import sys as _sys
 import threading as _realthreading
 
 from . import kernel as _k
@@ -27,7 +28,13 @@ class SimLock(object):
 
     def __init__(self, name=None):
         SimLock._n += 1
-        self.name = name or "lock%d" % SimLock._n
+        if name is None:
+            try:
+                f = _sys._getframe(1)
+                name = "lock%d@%s:%d" % (SimLock._n, f.f_code.co_filename.rsplit("/", 2)[-1], f.f_lineno)
+            except Exception:
+                name = "lock%d" % SimLock._n
+        self.name = name
         self.held = False
         self.owner = None
         self.waiters = []
@@ -141,8 +148,14 @@ class QueueShim(object):
     Full = _realqueue.Full
 
 
-class TimeShim(object):
-    """Stands in for the `time` module at import seams."""
+import time as _realtime
+
+
+class _TimeShim(object):
+    """Stands in for the `time` module at import seams (virtual time/sleep, the rest passes through)."""
+
+    def __getattr__(self, name):
+        return getattr(_realtime, name)
 
     @staticmethod
     def time():
@@ -159,11 +172,87 @@ class TimeShim(object):
         return k.now / 1e6 if k is not None else 0.0
 
 
-class ThreadingShim(object):
-    """Stands in for the `threading` module where only Lock/Thread are used."""
+TimeShim = _TimeShim()
+
+
+class SimRLock(object):
+    def __init__(self):
+        self._l = SimLock()
+        self._owner = None
+        self._count = 0
+
+    def acquire(self, blocking=True, timeout=-1):
+        me = _K().cur
+        if self._owner is me and me is not None:
+            self._count += 1
+            return True
+        ok = self._l.acquire(blocking, timeout)
+        if ok:
+            self._owner = me
+            self._count = 1
+        return ok
+
+    def release(self):
+        self._count -= 1
+        if self._count == 0:
+            self._owner = None
+            self._l.release()
+
+    def locked(self):
+        return self._l.held
+
+    def __enter__(self):
+        self.acquire()
+        return self
+
+    def __exit__(self, *a):
+        self.release()
+
+
+class SimEvent(object):
+    def __init__(self):
+        self._flag = False
+        self._waiters = []
+
+    def is_set(self):
+        return self._flag
+
+    isSet = is_set
+
+    def set(self):
+        k = _K()
+        self._flag = True
+        for w in self._waiters:
+            k.wake(w)
+        self._waiters = []
+        _soft_yield(k)
+
+    def clear(self):
+        self._flag = False
+
+    def wait(self, timeout=None):
+        k = _K()
+        k.yield_()
+        deadline = None if timeout is None else k.now + int(timeout * 1e6)
+        while not self._flag:
+            self._waiters.append(k.cur)
+            if not k.wait(self, deadline) and not self._flag:
+                return False
+        return True
+
+
+class _ThreadingShim(object):
+    """Stands in for the `threading` module (Lock/RLock/Event/Thread simulated, the rest passes through)."""
     Lock = SimLock
+    RLock = SimRLock
+    Event = SimEvent
     Thread = _realthreading.Thread
-    current_thread = staticmethod(_realthreading.current_thread)
+
+    def __getattr__(self, name):
+        return getattr(_realthreading, name)
+
+
+ThreadingShim = _ThreadingShim()
 
 
 _orig_start = _realthreading.Thread.start
